@@ -174,6 +174,52 @@ def engine_accepts(answers, n):
     return w, s
 
 
+def subterms(f):
+    """candidate replacements for a filter, smaller first"""
+    k = f[0]
+    out = []
+    if k == "log":
+        out += [f[2], f[3]]
+        for a in subterms(f[2]):
+            out.append(("log", f[1], a, f[3]))
+        for b in subterms(f[3]):
+            out.append(("log", f[1], f[2], b))
+    elif k == "not":
+        out.append(f[1])
+        for a in subterms(f[1]):
+            out.append(("not", a))
+    return out
+
+
+def fails_outside_classes(binpath, f, ev):
+    a = harness.run_jsonl(binpath, [api_req(f, [ev])])[0]
+    if "panic" in a:
+        return False
+    w, s = a["acc"][0]
+    fl = a.get("flags", [[False, False]])[0]
+    return w != s and not fl[0] and not fl[1]
+
+
+def shrink_api(binpath, f, ev):
+    """greedy: replace the filter by a sub-filter / drop event fields while the two paths still disagree outside the known classes"""
+    if not fails_outside_classes(binpath, f, ev):
+        return f, ev
+    changed = True
+    while changed:
+        changed = False
+        for cand in subterms(f):
+            if fails_outside_classes(binpath, cand, ev):
+                f, changed = cand, True
+                break
+        if not changed:
+            for i in range(len(ev)):
+                cand = ev[:i] + ev[i + 1:]
+                if fails_outside_classes(binpath, f, cand):
+                    ev, changed = cand, True
+                    break
+    return f, ev
+
+
 def classes_of(flags):
     cl = []
     if flags is not None:
@@ -243,6 +289,12 @@ def check(run):
                     run.tie_broken("correspondence Cmp/Model.v vs evaluator.rs/compiler.rs/sase.rs on filter %s" % C.e_show(f),
                                    "events %s\nimpl  %s\nmodel %s" % ([ev_show(e) for e in evs], si, smc))
         flags_by_case.append(flags)
+        iflags = [tuple(x) for x in ans.get("flags", [])]
+        if flags is not None and iflags and iflags != flags:
+            n_corr += 1
+            if n_corr <= 3:
+                run.tie_broken("known-class membership computed by Cmp/Classes.v and by the real evaluator differ on filter %s" % C.e_show(f),
+                               "events %s\nimpl  %s\nmodel %s" % ([ev_show(e) for e in evs], iflags, flags))
         acc = ans.get("acc", [])
         nontrivial = None
         if acc and ((any(w for w, _ in acc) and not all(w for w, _ in acc)) or C.e_size(f) > 3):
@@ -268,7 +320,13 @@ def check(run):
                     n_or += 1
                     run.count("oracle_fail")
                     if n_or <= 6:
-                        run.violation(what, {"kind": "api", "filter": f, "events": [evs[j]], "implementation": {"where": w, "step": s, "pred": ans["pred"]},
+                        f2, e2 = shrink_api(binpath, f, evs[j])
+                        a2 = harness.run_jsonl(binpath, [api_req(f2, [e2])])[0]
+                        w2, s2 = a2["acc"][0]
+                        what = "filter `%s` on event %s: .where %s it, the sequence step %s it" % (
+                            C.e_show(f2), ev_show(e2), "accepts" if w2 else "rejects", "accepts" if s2 else "rejects")
+                        run.violation(what, {"kind": "api", "filter": f2, "events": [e2], "implementation": {"where": w2, "step": s2, "pred": a2["pred"]},
+                                             "found_as": {"filter": C.e_json(f), "event": C.ev_json(evs[j])},
                                              "contradicts": "C09_agree (coq/theories/Cmp/Props_C09.v)"})
     run.extra["api_disagreements_outside_known_classes"] = n_or
     run.extra["api_disagreements_in_known_classes"] = n_known
@@ -303,7 +361,9 @@ def check(run):
             continue
         w, s = r
         api = answers[k].get("acc")
-        if api and [list(x) for x in zip(w, s)] != [list(x) for x in api]:
+        # (filters with `not` are compared through the oracle only: until /repo e2319ae the parser dropped the keyword
+        #  in both contexts alike, which does not concern this property)
+        if api and not C.has_not(f) and [list(x) for x in zip(w, s)] != [list(x) for x in api]:
             n_eng_corr += 1
             if n_eng_corr <= 3:
                 run.tie_broken("Engine programs and evaluator APIs disagree on filter `%s`" % C.e_vpl(f),
@@ -312,6 +372,8 @@ def check(run):
             if w[j] != s[j]:
                 fl = flags_by_case[k]
                 cl = classes_of(fl[j] if fl else None)
+                if C.has_not(f) and api and [w[j], s[j]] != list(api[j]):
+                    cl = []   # the text was not parsed to the AST the classes were computed for
                 what = "Engine: `stream W = B.where(%s)` %s event %s but `A as a -> B where %s as b` %s it" % (
                     C.e_vpl(f), "selects" if w[j] else "drops", ev_show(evs[j]), C.e_vpl(f), "matches" if s[j] else "does not match")
                 if cl and run.match_known(cl):
